@@ -457,16 +457,22 @@ Section Variant.
   Definition init_stream (P min_buffer : nat) (data : list N) (chunks : list nat) : option fp :=
     let s := init_common P min_buffer data chunks in
     Some (mk_fp [] 0 0 0 (dms s) false true true P data (open_stream data chunks) (fuel s)).
+  (* FilePiece(fd) on a pipe that carries compressed data: TransitionToRead (ReadFactory finds the magic and installs the
+     decompressor chain, whose output is `data`), then the first Shift *)
+  Definition init_pipe_stream (P min_buffer : nat) (data : list N) (chunks : list nat) : option fp :=
+    let s := init_common P min_buffer data chunks in
+    shift (mk_fp [] 0 0 0 (dms s) false true true P data (open_stream data chunks) (fuel s)).
 End Variant.
 
 Arguments LOk {A}. Arguments LEof {A}. Arguments LFuel {A}.
 
-Inductive backend := BFile | BPipe | BStream.
+Inductive backend := BFile | BPipe | BStream | BPipeStream.
 Definition init (v : variant) (b : backend) (P min_buffer : nat) (data : list N) (chunks : list nat) : option fp :=
   match b with
   | BFile => init_file v P min_buffer data chunks
   | BPipe => init_pipe v P min_buffer data chunks
   | BStream => init_stream P min_buffer data chunks
+  | BPipeStream => init_pipe_stream v P min_buffer data chunks
   end.
 
 (* what the drivers print for one case: None when the constructor threw end of file (it cannot) *)
